@@ -100,6 +100,17 @@ def tasks(tier, seed):
                 n += 1
                 out.append({"family": "GENSPLIT", "id": text_id(text, c), "text": text,
                             "opts": {"component": c, "backends": [b], "remove_unused": bool(j % 4 == 3 and b == "numpy")}})
+    # GEN programs that are written with 2-3 components (both block keywords, shared readers, unused declarations)
+    from .. import gen
+    G = [p for p in gen.programs("thorough", seed, 0, 300 if tier == "quick" else 2400, "std") if p["meta"]["ncomp"] >= 2]
+    if tier == "quick":
+        G = families.select(G, 40, seed)
+    for j, p in enumerate(G):
+        for c in sorted(set(re.findall(r'(?:expressions|component)\("([^"]+)"\)', p["text"]))):
+            b = ["numpy", "jax", "c"][(j + n) % 3]
+            n += 1
+            out.append({"family": "GEN", "id": p["id"] + "|" + c, "text": p["text"],
+                        "opts": {"component": c, "backends": [b], "remove_unused": bool(j % 4 == 3 and b == "numpy")}})
     return out + witness_tasks(PROP)
 
 
